@@ -199,6 +199,43 @@ func init() {
 		}
 		vT1c = append(vT1c, vProgram{name: "i32.const-op", params: []byte{i32}, results: []byte{i32}, body: cat(i32const(0), lg(0), []byte{op})})
 	}
+	// constant on the LEFT for every binary instruction
+	for _, op := range []byte{0x6a, 0x6b, 0x6c, 0x6d, 0x6e, 0x6f, 0x70, 0x71, 0x72, 0x73, 0x74, 0x75, 0x76, 0x77, 0x78} {
+		for _, c := range []int32{1, -1, 7} {
+			vT1c = append(vT1c, vProgram{name: "i32.const-op", params: []byte{i32}, results: []byte{i32}, body: cat(i32const(c), lg(0), []byte{op})})
+		}
+	}
+	for _, op := range []byte{0x7c, 0x7d, 0x7e, 0x7f, 0x80, 0x81, 0x82, 0x83, 0x84, 0x85, 0x86, 0x87, 0x88, 0x89, 0x8a} {
+		for _, c := range []int64{0, -1, 7} {
+			vT1c = append(vT1c, vProgram{name: "i64.const-op", params: []byte{i64}, results: []byte{i64}, body: cat(i64const(c), lg(0), []byte{op})})
+		}
+	}
+	// every comparison with a constant on either side, consumed as a value, by select and by if (the three places a
+	// compare-and-use is fused by the back end)
+	type cmpFam struct {
+		lo, hi byte
+		t      byte
+	}
+	for _, fam := range []cmpFam{{0x46, 0x4f, i32}, {0x51, 0x5a, i64}} {
+		for op := fam.lo; op <= fam.hi; op++ {
+			for _, c := range []int64{0, 7, -1} {
+				k := i32const(int32(c))
+				if fam.t == i64 {
+					k = i64const(c)
+				}
+				for side := 0; side < 2; side++ {
+					cmp := cat(lg(0), k, []byte{op})
+					if side == 1 {
+						cmp = cat(k, lg(0), []byte{op})
+					}
+					vT1c = append(vT1c,
+						vProgram{name: "cmp-const-value", params: []byte{fam.t}, results: []byte{i32}, body: cmp},
+						vProgram{name: "cmp-const-select", params: []byte{fam.t}, results: []byte{i32}, body: cat(i32const(11), i32const(22), cmp, []byte{0x1b})},
+						vProgram{name: "cmp-const-if", params: []byte{fam.t}, results: []byte{i32}, body: cat(cmp, []byte{0x04, 0x7f}, i32const(11), []byte{0x05}, i32const(22), []byte{0x0b})})
+				}
+			}
+		}
+	}
 	c64 := []int64{0, 1, -1, 64, 0x7fffffff, 0x80000000, -0x8000000000000000}
 	for _, op := range []byte{0x7c, 0x7d, 0x7e, 0x7f, 0x80, 0x81, 0x82, 0x86, 0x87, 0x88, 0x89} {
 		for _, c := range c64 {
